@@ -68,8 +68,7 @@ Inductive st_rel : list Z -> Z -> list Z -> Prop :=
 | sr_key st : st_rel (S_ObjectKey :: st) G_String (S_ObjectValue :: st)
 | sr_val st g s : g = G_Literal \/ g = G_Number \/ g = G_String -> s <> S_ObjectKey ->
                   st_rel (s :: st) g (valfix (s :: st))
-| sr_err st : st_rel st G_Error st
-| sr_err_fix st : st_rel st G_Error (valfix st).
+| sr_err st : st_rel st G_Error st.
 
 (* ---------------------------------------------------------------------------------------------- *)
 (* parser invariant, relative to the input d *)
@@ -88,13 +87,23 @@ Proof.
 Qed.
 
 (* what one call of Next guarantees; pos0 is the cursor offset before the call *)
+(* after a unit that completes a value (a scalar value, or an End) a separator or closer must follow *)
+Definition completes_value (g : Z) (st' : list Z) : Prop :=
+  g = G_Literal \/ g = G_Number \/ g = G_EndObject \/ g = G_EndArray \/
+  (g = G_String /\ top st' <> Some S_ObjectValue).
+
 Definition step_ok (d : list Z) (pos0 : Z) (p : parser) (r : option (unit_ * parser)) : Prop :=
   exists u p', r = Some (u, p') /\ json_inv d p' /\ prd p' = prd p /\ pos0 <= lpos (pz p') /\
     st_rel (pst p) (fst u) (pst p') /\
     match snd u with
-    | None => fst u = G_Error /\ (perr p' = perr p \/ perr p' = Some (lpos (pz p')))
+    | None => fst u = G_Error /\
+              (perr p' = Some (lpos (pz p')) \/
+               (* the end-of-input report: nothing is recorded, the parser is not in key position *)
+               (perr p' = perr p /\ top (pst p') <> Some S_ObjectKey /\
+                (prd p <> 0 \/ lpos (pz p') = len d)))
     | Some (lo, b) => fst u <> G_Error /\ b <> [] /\ pos0 <= lo /\ b = slice d lo (lo + len b) /\
-                      lo + len b <= lpos (pz p') /\ perr p' = perr p /\ lstart (pz p') = lpos (pz p')
+                      lo + len b <= lpos (pz p') /\ perr p' = perr p /\ lstart (pz p') = lpos (pz p') /\
+                      (completes_value (fst u) (pst p') -> pneed p' = true)
     end.
 
 Lemma len_app3_le (a tok s : list Z) : 0 <= len a + len tok <= len (a ++ tok ++ s).
@@ -113,15 +122,16 @@ Proof.
   { exists a, tok, s. cbn [pz pst perr]. split; [exact Hd|]. split; [exact Hc|]. split; [exact Hst|].
     unfold err_in_range. rewrite (cur3_lpos _ _ _ _ Hc). subst d. apply len_app3_le. }
   split; [reflexivity|]. split; [exact Hpos|]. split; [exact Hrel|].
-  split; [reflexivity|]. right. reflexivity.
+  split; [reflexivity|]. left. reflexivity.
 Qed.
 
 Lemma emit_ok d pos0 p g z a tok s st need :
   cur3 z a tok s -> tok <> [] -> d = a ++ tok ++ s -> stack_ok st -> pos0 <= len a ->
   g <> G_Error -> st_rel (pst p) g st -> err_in_range d (perr p) ->
+  (completes_value g st -> need = true) ->
   step_ok d pos0 p (emit p g z st need).
 Proof.
-  intros Hc Htok Hd Hst Hpos Hg Hrel Herr. unfold step_ok, emit.
+  intros Hc Htok Hd Hst Hpos Hg Hrel Herr Hneed. unfold step_ok, emit.
   rewrite (cur3_shift _ _ _ _ Hc). cbn [option_bind fst snd].
   pose proof (cur3_skip _ _ _ _ Hc) as Hsk.
   eexists _, _. split; [reflexivity|]. cbn [pz pst perr prd fst snd].
@@ -137,6 +147,7 @@ Proof.
   split. { subst d. rewrite slice_mid. reflexivity. }
   split. { rewrite (cur3_lpos _ _ _ _ Hsk). rewrite len_app, len_nil. lia. }
   split; [reflexivity|].
+  split; [|exact Hneed].
   rewrite (cur3_lpos _ _ _ _ Hsk), (cur3_lstart _ _ _ _ Hsk). rewrite len_nil. lia.
 Qed.
 
@@ -206,26 +217,37 @@ Proof.
   split. { rewrite (cur3_lpos _ _ _ _ H6). rewrite !len_app, len_nil. pose proof (len_nonneg w).
            change (len [58]) with 1. lia. }
   split; [reflexivity|].
-  rewrite (cur3_lpos _ _ _ _ H6), (cur3_lstart _ _ _ _ H6). rewrite len_nil. lia.
+  split. { rewrite (cur3_lpos _ _ _ _ H6), (cur3_lstart _ _ _ _ H6). rewrite len_nil. lia. }
+  unfold completes_value, G_String, G_Literal, G_Number, G_EndObject, G_EndArray. cbn [top].
+  intros [Hq|[Hq|[Hq|[Hq|[_ Hq]]]]]; try discriminate. congruence.
 Qed.
 
 (* --- the value block --------------------------------------------------------------------------- *)
-Lemma next_value_ok d pos0 p z2 a s2 state :
-  cur3 z2 a [] s2 -> d = a ++ s2 -> top (pst p) = Some state -> state <> S_ObjectKey ->
-  stack_ok (pst p) -> pos0 <= len a -> err_in_range d (perr p) ->
-  step_ok d pos0 p (next_value p z2 (hd0 s2) state).
+Lemma emit_value_ok d pos0 p g z a tok s state :
+  cur3 z a tok s -> tok <> [] -> d = a ++ tok ++ s -> top (pst p) = Some state -> state <> S_ObjectKey ->
+  stack_ok (pst p) -> pos0 <= len a -> g = G_Literal \/ g = G_Number \/ g = G_String ->
+  err_in_range d (perr p) ->
+  step_ok d pos0 p (emit_value p g z state).
 Proof.
-  intros H2 Hd Htop Hstate Hok Hpos Herr. unfold next_value.
-  (* the state update is valfix *)
+  intros Hc Htok Hd Htop Hstate Hok Hpos Hg Herr. unfold emit_value.
   assert (Hst' : (if state =? S_ObjectValue then set_top (pst p) S_ObjectKey else Some (pst p))
                  = Some (valfix (pst p))).
   { destruct (pst p) as [|s0 t0] eqn:Ep; [discriminate|]. cbn in Htop. inversion Htop; subst s0.
     cbn [valfix set_top]. destruct (state =? S_ObjectValue); reflexivity. }
   rewrite Hst'. cbn [option_bind].
-  pose proof (stack_ok_valfix _ Hok) as Hok'.
-  assert (Hrel : forall g, g = G_Literal \/ g = G_Number \/ g = G_String -> st_rel (pst p) g (valfix (pst p))).
-  { intros g Hg. destruct (pst p) as [|s0 t0] eqn:Ep; [discriminate|]. cbn in Htop. inversion Htop; subst s0.
-    apply sr_val; assumption. }
+  apply (emit_ok d pos0 p g z a tok s); auto.
+  - apply stack_ok_valfix. exact Hok.
+  - unfold G_Literal, G_Number, G_String, G_Error in *. lia.
+  - destruct (pst p) as [|s0 t0] eqn:Ep; [discriminate|]. cbn in Htop. inversion Htop; subst s0.
+    apply sr_val; assumption.
+Qed.
+
+Lemma next_value_ok d pos0 p z2 a s2 need state :
+  cur3 z2 a [] s2 -> d = a ++ s2 -> top (pst p) = Some state -> state <> S_ObjectKey ->
+  stack_ok (pst p) -> pos0 <= len a -> err_in_range d (perr p) ->
+  step_ok d pos0 p (next_value p z2 (hd0 s2) need state).
+Proof.
+  intros H2 Hd Htop Hstate Hok Hpos Herr. unfold next_value.
   (* string attempt *)
   assert (Hstr : exists ok z3 tok3 s3,
             (if hd0 s2 =? 34 then consume_string z2 else Some (false, z2)) = Some (ok, z3) /\
@@ -240,38 +262,42 @@ Proof.
   destruct Hstr as (ok & z3 & tok3 & s3 & Hs & H3 & Hs2 & Hne). rewrite Hs. cbn [option_bind fst snd].
   assert (Hd3 : d = a ++ tok3 ++ s3) by (rewrite Hd, Hs2; reflexivity).
   destruct ok.
-  { apply (emit_ok d pos0 p G_String z3 a tok3 s3); auto; try discriminate; try (apply Hrel; auto). }
+  { apply (emit_value_ok d pos0 p G_String z3 a tok3 s3 state); auto. }
   (* number attempt *)
   pose proof (consume_number_spec z3 a tok3 s3 H3) as Hn.
   destruct (num_split s3) as [[xn rn]|] eqn:En.
   { destruct Hn as (z4 & Hn & H4). rewrite Hn. cbn [option_bind fst snd].
     destruct (num_split_app _ _ _ En) as [Hsn Hxn].
-    apply (emit_ok d pos0 p G_Number z4 a (tok3 ++ xn) rn); auto.
+    apply (emit_value_ok d pos0 p G_Number z4 a (tok3 ++ xn) rn state); auto.
     - destruct tok3; [exact Hxn|discriminate].
-    - rewrite Hd3, Hsn. rewrite <- app_assoc. reflexivity.
-    - discriminate. }
+    - rewrite Hd3, Hsn. rewrite <- app_assoc. reflexivity. }
   destruct Hn as (z4 & Hn & H4). rewrite Hn. cbn [option_bind fst snd].
   (* literal attempt *)
   pose proof (consume_literal_spec z4 a tok3 s3 H4) as Hl.
   destruct (lit_split s3) as [[xl rl]|] eqn:El.
   { destruct Hl as (z5 & Hl & H5). rewrite Hl. cbn [option_bind fst snd].
     destruct (lit_split_app _ _ _ El) as [Hsl Hxl].
-    apply (emit_ok d pos0 p G_Literal z5 a (tok3 ++ xl) rl); auto.
+    apply (emit_value_ok d pos0 p G_Literal z5 a (tok3 ++ xl) rl state); auto.
     - destruct Hxl as [->|[->| ->]]; destruct tok3; discriminate.
-    - rewrite Hd3, Hsl. rewrite <- app_assoc. reflexivity.
-    - discriminate. }
+    - rewrite Hd3, Hsl. rewrite <- app_assoc. reflexivity. }
   rewrite Hl. cbn [option_bind fst snd].
   rewrite (cur3_pk0 _ _ _ _ H4). cbn [option_bind].
   assert (Hp4 : pos0 <= lpos z4).
   { rewrite (cur3_lpos _ _ _ _ H4). pose proof (len_nonneg tok3). lia. }
-  destruct ((hd0 s3 =? 0) && negb (r_err p z4)).
-  { eapply fail_ok; [exact H4|exact Hd3|exact Hok'|exact Hp4|apply sr_err_fix]. }
-  destruct (hd0 s3 =? 0).
-  2:{ eapply fail_ok; [exact H4|exact Hd3|exact Hok'|exact Hp4|apply sr_err_fix]. }
+  destruct ((hd0 s3 =? 0) && negb (r_err p z4)) eqn:Enul.
+  { eapply fail_ok; [exact H4|exact Hd3|exact Hok|exact Hp4|apply sr_err]. }
+  destruct (hd0 s3 =? 0) eqn:E0.
+  2:{ eapply fail_ok; [exact H4|exact Hd3|exact Hok|exact Hp4|apply sr_err]. }
+  (* the end-of-input report *)
   unfold step_ok. eexists _, _. split; [reflexivity|]. cbn [pz pst perr prd fst snd].
   split. { exists a, tok3, s3. cbn [pz pst perr]. auto. }
-  split; [reflexivity|]. split; [exact Hp4|]. split; [apply sr_err_fix|].
-  split; [reflexivity|]. left. reflexivity.
+  split; [reflexivity|]. split; [exact Hp4|]. split; [apply sr_err|].
+  split; [reflexivity|]. right. split; [reflexivity|]. split; [rewrite Htop; congruence|].
+  cbn [andb] in Enul. apply negb_false_iff in Enul. unfold r_err in Enul.
+  destruct (negb (prd p =? 0)) eqn:Ep; [left; lia|right].
+  cbn [orb] in Enul. rewrite (cur3_at_end _ _ _ _ H4) in Enul.
+  rewrite (cur3_lpos _ _ _ _ H4). rewrite Hd3. rewrite !len_app.
+  assert (len s3 = 0) by lia. lia.
 Qed.
 
 (* --- after the comma block ---------------------------------------------------------------------- *)
@@ -290,16 +316,18 @@ Proof.
   { eapply fail_ok; [exact H2|exact Hd2|exact Hok|exact Hp2|apply sr_err]. }
   (* the four brackets: the cursor moves over one byte *)
   assert (Hbr : forall c g st', hd0 s2 = c -> c <> 0 -> g <> G_Error -> stack_ok st' -> st_rel (pst p) g st' ->
-             forall nd, step_ok d pos0 p (emit p g (mv (skip z1) 1) st' nd)).
-  { intros c g st' Hc Hc0 Hg Hst' Hrel nd. destruct (hd0_cons_inv s2 c Hc Hc0) as (t & Hs2).
+             forall nd, (completes_value g st' -> nd = true) ->
+                        step_ok d pos0 p (emit p g (mv (skip z1) 1) st' nd)).
+  { intros c g st' Hc Hc0 Hg Hst' Hrel nd Hnd. destruct (hd0_cons_inv s2 c Hc Hc0) as (t & Hs2).
     rewrite Hs2 in H2. pose proof (cur3_mv1 _ _ _ _ _ H2) as H3.
     apply (emit_ok d pos0 p g _ (a ++ tok1) ([] ++ [c]) t); auto.
     - discriminate.
     - rewrite Hd2, Hs2. reflexivity. }
   destruct (hd0 s2 =? 123) eqn:E1.
   { apply Z.eqb_eq in E1.
-    apply (Hbr 123 G_StartObject (S_ObjectKey :: pst p)); [exact E1|lia|discriminate| |apply sr_start_obj].
-    apply stack_ok_push; [exact Hok|left; reflexivity]. }
+    apply (Hbr 123 G_StartObject (S_ObjectKey :: pst p)); [exact E1|lia|discriminate| |apply sr_start_obj|].
+    - apply stack_ok_push; [exact Hok|left; reflexivity].
+    - unfold completes_value, G_StartObject, G_Literal, G_Number, G_EndObject, G_EndArray, G_String. intros Hq. lia. }
   destruct (hd0 s2 =? 125) eqn:E2.
   { apply Z.eqb_eq in E2.
     destruct (negb (state =? S_ObjectKey)) eqn:Es.
@@ -307,12 +335,13 @@ Proof.
     apply negb_false_iff in Es. apply Z.eqb_eq in Es. subst state.
     destruct (pop_fix_ok _ _ Hok Htop ltac:(discriminate)) as (t & Hst & Hokt & Hpop).
     rewrite Hpop. cbn [option_bind].
-    apply (Hbr 125 G_EndObject (valfix t)); [exact E2|lia|discriminate| |rewrite Hst; apply sr_end_obj].
+    apply (Hbr 125 G_EndObject (valfix t)); [exact E2|lia|discriminate| |rewrite Hst; apply sr_end_obj|reflexivity].
     apply stack_ok_valfix. exact Hokt. }
   destruct (hd0 s2 =? 91) eqn:E3.
   { apply Z.eqb_eq in E3.
-    apply (Hbr 91 G_StartArray (S_Array :: pst p)); [exact E3|lia|discriminate| |apply sr_start_arr].
-    apply stack_ok_push; [exact Hok|right; right; reflexivity]. }
+    apply (Hbr 91 G_StartArray (S_Array :: pst p)); [exact E3|lia|discriminate| |apply sr_start_arr|].
+    - apply stack_ok_push; [exact Hok|right; right; reflexivity].
+    - unfold completes_value, G_StartArray, G_Literal, G_Number, G_EndObject, G_EndArray, G_String. intros Hq. lia. }
   destruct (hd0 s2 =? 93) eqn:E4.
   { apply Z.eqb_eq in E4.
     destruct (negb (state =? S_Array)) eqn:Es.
@@ -320,14 +349,14 @@ Proof.
     apply negb_false_iff in Es. apply Z.eqb_eq in Es. subst state.
     destruct (pop_fix_ok _ _ Hok Htop ltac:(discriminate)) as (t & Hst & Hokt & Hpop).
     rewrite Hpop. cbn [option_bind].
-    apply (Hbr 93 G_EndArray (valfix t)); [exact E4|lia|discriminate| |rewrite Hst; apply sr_end_arr].
+    apply (Hbr 93 G_EndArray (valfix t)); [exact E4|lia|discriminate| |rewrite Hst; apply sr_end_arr|reflexivity].
     apply stack_ok_valfix. exact Hokt. }
   destruct (state =? S_ObjectKey) eqn:Ek.
   - apply Z.eqb_eq in Ek. subst state.
     destruct (pst p) as [|s0 st0] eqn:Ep; [discriminate|]. cbn in Htop. inversion Htop; subst s0.
     rewrite <- Ep in Hok. eapply (next_key_ok d pos0 p (skip z1) (a ++ tok1) s2 need st0); eauto.
   - apply Z.eqb_neq in Ek.
-    apply (next_value_ok d pos0 p (skip z1) (a ++ tok1) s2 state); auto.
+    apply (next_value_ok d pos0 p (skip z1) (a ++ tok1) s2 need state); auto.
 Qed.
 
 (* --- Next --------------------------------------------------------------------------------------- *)
